@@ -595,7 +595,8 @@ static Plan gen_fscrash(Rng& r, int tier, std::string const&)
     default: p.eng = E_MT19937; p.bins = 128; p.dims = 3; p.nt = NT_L; break;
     }
     p.variant = r.below(3);   // 0 enumeration, 1 enumeration with short writes / EINTR, 2 executed crash sequences
-    p.aux.assign(1, r.next());
+    p.aux.assign(2, r.next());
+    p.aux[1] = static_cast<u64>(tier);
     if (p.variant == 2)
     {
         u64 const n = 1 + r.below(4);
@@ -661,9 +662,18 @@ struct CrashCheck : CrashVisitor
         out.assign(s.begin(), s.end());
     }
 
-    void state(std::size_t event, u64 prefix, std::map<std::string, std::string> const& files) override
+    void state(std::size_t event, u64 prefix, std::map<std::string, std::string> const& files,
+        std::string const& touched) override
     {
         ++states;
+        // the verdict can only change when the checkpoint path itself was touched (or the
+        // iteration the event belongs to moved on)
+        std::size_t const kk = (event < iter_of_event.size()) ? iter_of_event[event] : texts->size() - 1;
+        if (!bad.empty()) return;   // the first incomplete state is the finding
+        if (touched != "*" && touched != path && have_last && kk == last_k) return;
+        have_last = true;
+        last_k = kk;
+        last_ok = true;
         auto it = files.find(path);
         if (it == files.end()) return;   // no file: resumes from scratch
         std::string const& c = it->second;
@@ -673,6 +683,7 @@ struct CrashCheck : CrashVisitor
         {
             if ((j + 1 == k || j == k) && c == (*texts)[j]) complete = true;
         }
+        last_ok = complete;
         if (!complete && bad.empty())
         {
             bad = c.empty() ? std::string("<empty file>") : c;
@@ -680,6 +691,10 @@ struct CrashCheck : CrashVisitor
             bad_prefix = prefix;
         }
     }
+
+    bool have_last = false;
+    bool last_ok = true;
+    std::size_t last_k = 0;
 };
 
 }
@@ -756,7 +771,7 @@ static void exec_fscrash(Plan const& p, Report& rep)
         CrashCheck cc;
         cc.path = CHK;
         cc.texts = &texts;
-        cc.thorough = false;
+        cc.thorough = p.aux.size() > 1 && p.aux[1] != 0;   // every byte prefix in the thorough tier
         cc.rng = Rng(p.aux[0] ^ 77);
         std::size_t iter = 0;
         for (auto const& e : trace)
@@ -776,7 +791,8 @@ static void exec_fscrash(Plan const& p, Report& rep)
             // incomplete files
             struct Any : CrashCheck
             {
-                void state(std::size_t event, u64 prefix, std::map<std::string, std::string> const& files) override
+                void state(std::size_t event, u64 prefix, std::map<std::string, std::string> const& files,
+                    std::string const&) override
                 {
                     ++states;
                     auto it = files.find(path);
